@@ -56,6 +56,11 @@ pub fn bip322_verify_precompile(call: &PrecompileCall) -> InterpreterResult {
         return precompile_error(interpreter_result, "Failed to decode signature");
     };
 
+    // The taproot path of the verifier indexes the first witness element without checking
+    if signature.is_empty() {
+        return precompile_error(interpreter_result, "Failed to verify signature");
+    }
+
     let Ok(_) = verify_simple(&address, &message, signature) else {
         return precompile_error(interpreter_result, "Failed to verify signature");
     };
